@@ -89,6 +89,53 @@ static bool ledger_ok(const char* what, int held_before, int held_after_expected
     return ok;
 }
 
+/* ---------------------------------------------------------------- the first call of a process meets the failing allocator
+ * Forked children of a process that has made no call yet (this section runs first): whatever the library sets up on first
+ * use happens while the allocator refuses its k-th request.  The status rule and the ledger must hold for that call, and
+ * "subsequent calls behave normally": one fault-free call of every entry point afterwards equals the model. */
+typedef struct fu_arg { int e, o, k; uint64_t seed; } fu_arg;
+static int fu_child(void* p) {
+    fu_arg* a = p; pv_rng r; pv_rng_seed(&r, a->seed, 0xf15, (uint64_t)(a->e * 64 + a->o * 8 + a->k));
+    input in; if (!make_input(a->e, a->o, &r, &in)) return 0;
+    polyseed_data* s = NULL;
+    pv_w->fail_countdown = a->k;
+    int st = call(&in, &s);
+    bool failed = pv_w->alloc_failed_in_call > 0; pv_w->fail_countdown = 0;
+    if (failed && st != POLYSEED_ERR_MEMORY) return 20 + (st & 7);
+    int exp = OSTATUS[a->o];
+    if (a->e == E_DECODE || a->e == E_EXPLICIT) { pv_mdecode md; pv_m_decode(in.str, in.coin, a->e == E_DECODE ? NULL : in.L, 3, &md); if (md.status >= 0) exp = md.status; }     /* e.g. a phrase that happens to be valid in two lists */
+    if (!failed && st != exp) return 30 + (st & 7);
+    if (pv_ledger_live() != (st == POLYSEED_OK ? 1 : 0)) return 40;
+    if (st == POLYSEED_OK) pv_api_free(s);
+    for (int e2 = 0; e2 < E_N; ++e2) for (int rep = 0; rep < 8; ++rep) {
+        input i2; if (!make_input(e2, O_OK, &r, &i2)) continue;
+        s = NULL; st = call(&i2, &s);
+        if (e2 == E_DECODE && st == POLYSEED_ERR_MULT_LANG) { pv_mdecode md; pv_m_decode(i2.str, i2.coin, NULL, 3, &md); if (md.status == POLYSEED_ERR_MULT_LANG) { input_free(&i2); continue; } }
+        if (st != POLYSEED_OK) return 50 + e2;
+        if (e2 != E_CREATE) { const char* mm = pv_seed_mismatch(s, &i2.m, i2.coin); if (mm) return 60 + e2; }
+        pv_api_free(s); input_free(&i2);
+        if (pv_ledger_live() != 0) return 70 + e2;
+    }
+    return 0;
+}
+static uint64_t n_firstuse(void) { return (uint64_t)E_N * 3 * 3; }
+static void run_firstuse(uint64_t idx, pv_rng* rng) {
+    static const int OS[3] = { O_OK, O_CHECKSUM, O_UNSUPPORTED };
+    fu_arg a = { (int)(idx % E_N), OS[(idx / E_N) % 3], 1 + (int)(idx / (E_N * 3)), pv_rand64(rng) };
+    if (!possible(a.e, a.o)) return;
+    pv_cur.note = "forked child: first call of the process with a failing allocator";
+    int rc = pv_fork_case(fu_child, &a, 300);
+    PV_COUNT("evaluations", 33);
+    char what[96]; snprintf(what, sizeof what, "first-call/%s/%s/fail-request-%d", ENAME[a.e], ONAME[a.o], a.k);
+    if (rc == 0) { PV_COUNT("firstuse.children_ok", 1); PV_DISTINCT("nontrivial", pv_mix(0xf15, idx)); return; }
+    char key[160];
+    if (rc >= 20 && rc < 30) { snprintf(key, sizeof key, "C15/status-after-failed-allocation/%s", what); pv_violation(key, "%s: a request was refused but the call returned %s", what, pv_status_name(rc - 20)); }
+    else if (rc >= 30 && rc < 40) { snprintf(key, sizeof key, "C15/status/%s", what); pv_violation(key, "%s: no request was refused, status %s, expected %s", what, pv_status_name(rc - 30), ONAME[a.o]); }
+    else if (rc == 40) { snprintf(key, sizeof key, "C15/leak/%s", what); pv_violation(key, "%s: ledger does not balance after the call", what); }
+    else if (rc >= 50 && rc < 80) { snprintf(key, sizeof key, "C15/call-after-failure/%s", what); pv_violation(key, "%s: afterwards a fault-free %s %s", what, ENAME[rc % 10], rc < 60 ? "fails" : rc < 70 ? "returns a seed that differs from the model" : "leaves a block allocated"); }
+    else { snprintf(key, sizeof key, "C15/crash/%s", what); pv_violation(key, "%s: child ended with %d", what, rc); }
+}
+
 /* ---------------------------------------------------------------- site x outcome x fault choice */
 static uint64_t n_matrix(void) { return (uint64_t)E_N * O_N * pv_scaled(200, 20000); }
 static void run_matrix(uint64_t idx, pv_rng* rng) {
@@ -222,6 +269,6 @@ static void run_libc(uint64_t idx, pv_rng* rng) {
 static void fini(void) { pv_set_flag("exhaustive.site_x_outcome_x_failing_request", true); pv_set_flag("exhaustive.all_fault_masks_over_each_sampled_sequence", true); }
 int main(int argc, char** argv) {
     /* "libc" is last: it re-injects a table without alloc/free for the rest of the process */
-    static const pv_section secs[] = { { "matrix", n_matrix, run_matrix }, { "masks", n_masks, run_masks }, { "libc", n_libc, run_libc } };
-    return pv_main(argc, argv, "C15", secs, 3, init, fini);
+    static const pv_section secs[] = { { "firstuse", n_firstuse, run_firstuse }, { "matrix", n_matrix, run_matrix }, { "masks", n_masks, run_masks }, { "libc", n_libc, run_libc } };
+    return pv_main(argc, argv, "C15", secs, 4, init, fini);
 }
